@@ -60,6 +60,14 @@ func init() {
 		}
 		fmt.Println("pairs:", lockBalance(c, "L", rels, nil))
 	})
+	// LASTWINS: discovery run of E7 over every server package
+	register("LASTWINS", func(c *Check) {
+		var rels []string
+		for _, pk := range c.P.ServerPkgs() {
+			rels = append(rels, strings.TrimPrefix(strings.TrimPrefix(pk.PkgPath, modPath), "/"))
+		}
+		lastWinsSeen(c, funcsOfPkgs(c.P, rels...))
+	})
 	// ERRS: discovery run of the error-looked-at rule over every server package
 	register("ERRS", func(c *Check) {
 		c.Rule("E1", "error looked at (discovery)", 0)
